@@ -138,6 +138,12 @@ class Tr:
         a = fdef.args
         if a.vararg or a.kwarg or a.kwonlyargs or a.posonlyargs:
             self.err(fdef, "unsupported signature")
+        if fdef.decorator_list:
+            self.err(fdef, f"decorated function (@{ast.unparse(fdef.decorator_list[0])}): the statements are read as plain numpy code")
+        for n in ast.walk(fdef):
+            if isinstance(n, (ast.Global, ast.Nonlocal, ast.Lambda, ast.Try, ast.While, ast.Yield, ast.YieldFrom)) or (
+                    isinstance(n, (ast.FunctionDef, ast.ClassDef)) and n is not fdef):
+                self.err(n, f"{type(n).__name__} inside a translated function")
         self.self_params = []
 
     def err(self, node, msg):
